@@ -31,6 +31,8 @@ type methodInfo struct {
 	Def      string // suffix of the Coq definitions R_<Def>, L_<Def>
 	Shape    string // parsed endpoint body (Coq term) or ""
 	ShapeErr string
+	Strips   []string // payload fields the generated request decoder strips a prefix from
+	StripErr string
 }
 
 // step description kept for replays and the Cases table
@@ -95,15 +97,10 @@ func hasAttr(m *dg.Method, a string) bool {
 
 // coqLoc renders the model's location of a single-valued credential attribute.
 func coqLoc(mi *methodInfo, attr, kind string) string {
-	l := locFromMethod(mi.M, attr)
+	l := wireLoc(mi.M, attr)
 	switch {
-	case l == "implicit":
-		if kind == "jwt" || kind == "oauth2" {
-			return "(LHeader true)"
-		}
-		return "(LHeader false)"
 	case strings.HasPrefix(l, "header:"):
-		if strings.TrimPrefix(l, "header:") == "Authorization" && (kind == "jwt" || kind == "oauth2") {
+		if strings.EqualFold(l, "header:Authorization") && bearerHeader(mi) {
 			return "(LHeader true)"
 		}
 		return "(LHeader false)"
@@ -129,11 +126,17 @@ func coqBs(s string) string {
 }
 
 func coqCreds(mi *methodInfo, c map[string]string) string {
+	v := func(a string) string {
+		if !hasAttr(mi.M, a) {
+			return "[]"
+		}
+		return coqBs(credValue(mi.M, c, a))
+	}
 	keys := "[]"
 	if n := apiKeyName(mi.D); n != "" && hasAttr(mi.M, attrKey) {
-		keys = fmt.Sprintf("[(%s, %s)]", vh.CoqString(n), coqBs(c[attrKey]))
+		keys = fmt.Sprintf("[(%s, %s)]", vh.CoqString(n), v(attrKey))
 	}
-	return fmt.Sprintf("mk_creds %s %s %s %s %s", coqBs(c[attrUser]), coqBs(c[attrPass]), coqBs(c[attrToken]), coqBs(c[attrAToken]), keys)
+	return fmt.Sprintf("mk_creds %s %s %s %s %s", v(attrUser), v(attrPass), v(attrToken), v(attrAToken), keys)
 }
 
 // ---- credential values ----
@@ -164,12 +167,111 @@ func safeCred(r *vh.RNG, noColon bool) string {
 	return b.String()
 }
 
+// wireLoc: the HTTP location a credential attribute travels in (implicit = the Authorization header).
+func wireLoc(m *dg.Method, attr string) string {
+	l := locFromMethod(m, attr)
+	if l == "implicit" {
+		return "header:Authorization"
+	}
+	return l
+}
+
+// headerGroup lists the single-valued credential attributes of the payload that share attr's
+// header (attr included); nil when attr does not travel in a header.
+func headerGroup(m *dg.Method, attr string) []string {
+	if attr == attrUser || attr == attrPass {
+		return nil
+	}
+	w := wireLoc(m, attr)
+	if !strings.HasPrefix(w, "header:") {
+		return nil
+	}
+	var g []string
+	for _, a := range payloadAttrs(m) {
+		if a != attrUser && a != attrPass && strings.EqualFold(wireLoc(m, a), w) {
+			g = append(g, a)
+		}
+	}
+	return g
+}
+
+func fieldRequired(m *dg.Method, attr string) bool {
+	for _, f := range m.Payload.T.Attrs {
+		if f.Name == attr {
+			return f.Required
+		}
+	}
+	return false
+}
+
+// genCreds draws the credentials given to the client. Attributes that share one header get
+// one value (a header carries a single value); when they are optional, sometimes only one of
+// them is set at all (a client holding just one of the alternative tokens).
 func genCreds(r *vh.RNG, m *dg.Method) map[string]string {
 	c := map[string]string{}
 	for _, a := range payloadAttrs(m) {
-		c[a] = safeCred(r, a == attrUser)
+		if _, done := c[a]; done {
+			continue
+		}
+		g := headerGroup(m, a)
+		if len(g) < 2 {
+			c[a] = safeCred(r, a == attrUser)
+			continue
+		}
+		v := safeCred(r, false)
+		for _, x := range g {
+			c[x] = v
+		}
+	}
+	// second pass: drop all but one member of an optional shared group
+	seen := map[string]bool{}
+	for _, a := range payloadAttrs(m) {
+		g := headerGroup(m, a)
+		if len(g) < 2 || seen[g[0]] {
+			continue
+		}
+		seen[g[0]] = true
+		optional := true
+		for _, x := range g {
+			if fieldRequired(m, x) {
+				optional = false
+			}
+		}
+		if optional && r.Chance(1, 3) {
+			keep := g[r.Intn(len(g))]
+			for _, x := range g {
+				if x != keep {
+					delete(c, x)
+				}
+			}
+		}
 	}
 	return c
+}
+
+// credValue: what the client puts on the wire for attr: its own value when set, else the value
+// of an attribute sharing its header, else nothing.
+func credValue(m *dg.Method, c map[string]string, attr string) string {
+	if v, ok := c[attr]; ok {
+		return v
+	}
+	for _, x := range headerGroup(m, attr) {
+		if v, ok := c[x]; ok {
+			return v
+		}
+	}
+	return ""
+}
+
+// bearerHeader: the generated client prefixes the Authorization header with "Bearer " when a
+// JWT / OAuth2 scheme of the effective requirements reads it (isBearer over HeaderSchemes).
+func bearerHeader(mi *methodInfo) bool {
+	for k := range kindsOf(mi.D, effectiveReqs(mi.D, mi.S, mi.M)) {
+		if (k == "jwt" || k == "oauth2") && strings.EqualFold(wireLoc(mi.M, credAttrsOfKind(k)[0]), "header:Authorization") {
+			return true
+		}
+	}
+	return false
 }
 
 func payloadTree(m *dg.Method, c map[string]string) *rt.Tree {
@@ -178,8 +280,12 @@ func payloadTree(m *dg.Method, c map[string]string) *rt.Tree {
 	}
 	t := &rt.Tree{K: "struct", Names: []string{}, Elems: []*rt.Tree{}}
 	for _, a := range payloadAttrs(m) {
+		v, ok := c[a]
+		if !ok {
+			continue // left unset (optional attribute sharing a header with a set one)
+		}
 		t.Names = append(t.Names, dg.GoField(a))
-		t.Elems = append(t.Elems, &rt.Tree{K: "string", S: c[a]})
+		t.Elems = append(t.Elems, &rt.Tree{K: "string", S: v})
 	}
 	t.Names = append(t.Names, dg.GoField("note"))
 	t.Elems = append(t.Elems, &rt.Tree{K: "string", S: "n"})
@@ -364,7 +470,7 @@ func judge(res *vh.Result, idx int, mi *methodInfo, ex exchange, ob *rt.Obs, dec
 			}
 			var sent []string
 			for _, a := range credAttrsOfKind(w.Scheme.Kind) {
-				sent = append(sent, ex.Creds[a])
+				sent = append(sent, credValue(m, ex.Creds, a))
 			}
 			if !sameStrs(c.Cred, sent) {
 				in["sent"], in["received"] = sent, c.Cred
@@ -397,8 +503,11 @@ func judge(res *vh.Result, idx int, mi *methodInfo, ex exchange, ob *rt.Obs, dec
 		}
 		effKinds := kindsOf(d, eff)
 		for _, a := range credAttrs(effKinds) {
-			v := ex.Creds[a]
+			v := credValue(m, ex.Creds, a)
 			loc := locFromMethod(m, a)
+			if strings.EqualFold(loc, "header:Authorization") {
+				loc = "implicit"
+			}
 			switch {
 			case a == attrPass:
 			case a == attrUser:
@@ -408,7 +517,7 @@ func judge(res *vh.Result, idx int, mi *methodInfo, ex exchange, ob *rt.Obs, dec
 				}
 			case loc == "implicit":
 				want := v
-				if a == attrToken || a == attrAToken {
+				if bearerHeader(mi) {
 					want = "Bearer " + v
 				}
 				if hdr("Authorization") != want {
@@ -568,7 +677,45 @@ func addDesign(b *tierb.Batch, res *vh.Result, bd *builtDesign, infos *[]*method
 			shape = "[]"
 		}
 		mi.Shape = shape
+		if mi.M.Payload != nil {
+			st, err := parseDecoderStrips(filepath.Join(b.Dir, bu.Key, "gen", "http", mi.PathName, "server", "encode_decode.go"), mi.VarName)
+			if err != nil {
+				mi.StripErr = err.Error()
+			}
+			mi.Strips = st
+		}
 	}
 	*infos = append(*infos, mis...)
 	return bu
+}
+
+// expectedStrips: the property's reading of "every credential carried by a header is shown to
+// its callback without its scheme prefix": one stripping per header-carried, non-Basic scheme
+// of the effective requirements, in order of first appearance.
+func expectedStrips(mi *methodInfo) []string {
+	out := []string{}
+	for _, n := range schemeNamesOf(effectiveReqs(mi.D, mi.S, mi.M)) {
+		sc := schemeByName(mi.D, n)
+		if sc.Kind == "basic" {
+			continue
+		}
+		a := credAttrsOfKind(sc.Kind)[0]
+		if strings.HasPrefix(wireLoc(mi.M, a), "header:") {
+			out = append(out, dg.GoField(a))
+		}
+	}
+	return out
+}
+
+// coqAttr names a payload field in the model's terms.
+func coqAttr(mi *methodInfo, goField string) string {
+	switch goField {
+	case dg.GoField(attrToken):
+		return "AToken"
+	case dg.GoField(attrAToken):
+		return "AAToken"
+	case dg.GoField(attrKey):
+		return "AKey " + vh.CoqString(apiKeyName(mi.D))
+	}
+	return "AKey " + vh.CoqString("?"+goField)
 }
